@@ -780,6 +780,8 @@ class Acceptor(object):
         for idx, (_stepid, st) in enumerate(steps):
             d, m = self.match_def(st["type"], st["text"])
             e = {"allowed": None, "why": None, "def": d["id"] if d else None, "ev": None}
+            if d is not None:
+                e["exp_args"] = self.expected_args(d, m)
             exp.append(e)
             if self.p.dead:
                 e["allowed"] = None
@@ -899,6 +901,25 @@ class Acceptor(object):
                 hint = "skip-rest"
                 rec["skipped_by"] = "step"
         return failed, exp, hint
+
+    def expected_args(self, d, m):
+        """(positional list, keyword dict) the step function must receive (C11):
+        converted by the declared converter; named by keyword, anonymous by position."""
+        args, kwargs = [], {}
+        gi = 0
+        for tok in d["tokens"]:
+            if tok[0] != "fld":
+                continue
+            gi += 1
+            try:
+                val = W.convert_value(tok[2], m.group(gi), d["matcher"])
+            except Exception:
+                return None
+            if tok[1]:
+                kwargs[tok[1]] = val
+            else:
+                args.append(val)
+        return [args, kwargs]
 
     def converter_fails(self, d, m):
         if d["matcher"] == "re":
